@@ -222,7 +222,7 @@ CHECKS["C17"] = {
 
 CHECKS["C02"] = {
     "level": "fault_enumeration",
-    "rule": ("(1) exhaustive: every single-bit flip of one whole wire record (encrypted length header, its MAC, body, body MAC) for payload sizes {0,1,2,16,33} (thorough: 9 sizes up to 300), at stream positions first / third / first after a key rotation (every 7th bit there), XX and KK, both directions; "
+    "rule": ("(1) exhaustive: every single-bit flip of one whole wire record (encrypted length header, its MAC, body, body MAC) for payload sizes {0,1,2,16,33} (thorough: 9 sizes up to 300), at stream positions 0, 1, 2, 498..501, 999, 1000 (around the key rotations after 500 and 1000 records; every flip is offered to a value copy of the reader in the right state), XX and KK, both directions; "
              "(2) rapid: sessions (XX/KK, all versions) whose writer emits 1-12 records (sizes 0..65535), captured at the wire and edited by scripts of up to 4 operations out of flip, truncate, drop, dup, swap, replay, reflect (the reader's own ciphertext of the other direction), inject bytes, swap header; "
              "the edited stream is consumed through Machine.ReadMessage, NoiseGrpcConn.Read (in-memory ProxyConn) and NoiseConn.Read (hook constructor). (3) rapid: streams of up to 1700 records in which an earlier record (distance 1, 2, 250, 499, 500, 501, 1000, 1500 or random; i.e. within and across key rotations, aligned to the rotation period or not) is delivered in place of record k, and in addition every earlier record at a power-of-two distance (+-1) and at 250/500/750/1000/1500 (+-1) is offered to a value copy of the reader at that position. Oracle: the records returned before the first error equal the first records written, "
              "their number does not exceed the number of leading untouched records, and untouched leading records are all returned (no spurious error). Non-trivial: the script changed the byte stream; distinct by case."),
@@ -282,7 +282,7 @@ CHECKS["C05"] = {
              "0-8 writes per direction of 1..65535 bytes (boundaries 32767/32768/32769/65535) with concurrent readers, relay latency 0..200ms, and a finite per-message drop/delay script on each relay stream armed after the GBN handshake (1/4) or after the Noise handshake (3/4). "
              "Oracles: bytes read on each side are a prefix of the bytes written on the other; 300 virtual seconds after the scripts are exhausted either both streams are complete or both sides have observed a Read/Write error; "
              "no CipherBox payload the relay ever saw contains the first or a middle 16-byte window of any written plaintext >= 16 bytes or of the auth payload; the client's AuthData equals the server's. "
-             "A second, real-time family (TestC05RealTime, 32 conversations concurrently per batch) injects stream errors (the next 1-2 Send or Recv calls on a relay stream fail) and relay outages (down/up) at drawn moments during a paced transfer; same safety and confidentiality oracles, progress bound 90 real seconds after the relay is healthy again. Non-trivial: a relay fault was applied and a write >= 16 bytes was transferred; distinct by case."),
+             "A second, real-time family (TestC05RealTime, 32 conversations concurrently per batch) injects stream errors (the next 1-2 Send or Recv calls on a relay stream fail), relay outages (down/up) and, in a third of the cases, 9-20 s of silence (every message swallowed, longer than the 5s/7s+3s keepalive periods) at drawn moments during a paced transfer, in half of the cases on the second connection of the session (both ends closed and refreshed with RefreshClientConn / RefreshServerConn); same safety and confidentiality oracles, progress bound 90 real seconds after the relay is healthy again. Non-trivial: a relay fault was applied and a write >= 16 bytes was transferred; distinct by case."),
     "assumptions": ["relative to the in-memory model of the hashmail relay (harness/relay)", "stream errors (relay restarts) are exercised in real time by TestC05RealTime only"],
     "units": [
         {"pkg": "mboxprop", "run": "TestC05EndToEnd", "checks": (1200, 15000), "shards": (1, 16), "timeout": (900, 5400), "gomaxprocs": [16, 4, 2, 8]},
@@ -296,7 +296,7 @@ CHECKS["C11"] = {
              "which a synctest bubble cannot schedule), 40 sessions concurrently per batch: actions connect (with drawn Dial offset; optionally Dial issued while the previous connection is still open), transfer (echo of 1..40000 bytes), close_client, close_server, wait, "
              "intruder (a second client that only knows the passphrase), server max handshake version 0/1/2. Invariants: Accept / Dial never return while the connection previously handed out by the same object has an open Done(); "
              "after a close a working secured connection (echo succeeds) is re-established within 12 dial attempts; after a version-2 pairing both ConnData agree on a new SID different from the passphrase SID, hold each other's true key, "
-             "the next connection uses the KK pattern on the key-derived stream ids; a version 0/1 pairing stores no key; the passphrase-only client never completes a handshake nor obtains the auth payload after the switch; "
+             "the next connection uses the KK pattern on the key-derived stream ids; a version 0/1 pairing stores no key; the passphrase-only client never completes a handshake nor obtains the auth payload after the switch; in 2/5 of the sessions the first 1-2 DelCipherBox calls of the relay fail (they occur when the server tears down the passphrase mailboxes); "
              "the peer of a closed side notices within 30s. In half of the sessions the context given to Dial is cancelled as soon as Dial returns (dialer convention). "
              "Second unit (TestC11RawFresh): the connections handed out are used directly as net.Conns, 2-4 rounds per session, both sides write 0..300 bytes, the peer reads only part of them, one side closes, next round on the next connection; "
              "oracle: whatever is read on a connection is a prefix of what the peer wrote on that same connection (nothing of an earlier connection), plus the same exclusivity invariant. "
